@@ -93,6 +93,7 @@ def check(prog: Program, run: Run) -> None:
     _guard_body(tm, run)
     _foreign_value_guards(tm, pt, run)
     _elif_chains(tm, pt, run)
+    _ref_before_resolved(prog, tm, run)
     _loaders(prog, run)
     _document_alone(prog, run)
     _lossless_numbers(prog, tm, run)
@@ -773,6 +774,62 @@ def _stem(a: str) -> str:
     return a
 
 
+def _ref_before_resolved(prog: Program, tm: TemplateModel, run: Run) -> None:
+    """Where a class fills a field X from its reference field X_ref while resolving
+    (`self.X = odxlinks.resolve(self.X_ref, ..)`), both are set for referenced objects: a template
+    chain that tests both must test the reference first, or it writes a copy of the target and
+    drops the reference."""
+    R = "C11.R4"
+    derived: Dict[str, str] = {}  # X -> X_ref
+    for f in prog.iter_functions():
+        if f.name != "_resolve_odxlinks":
+            continue
+        for x in walk_no_nested(f.node):
+            if isinstance(x, ast.Assign) and isinstance(x.targets[0], ast.Attribute) and \
+                    isinstance(x.targets[0].value, ast.Name) and x.targets[0].value.id == "self" \
+                    and isinstance(x.value, ast.Call) and call_name(x.value) in (
+                        "resolve", "resolve_lenient") and x.value.args and isinstance(
+                            x.value.args[0], ast.Attribute) and isinstance(
+                                x.value.args[0].value, ast.Name) and \
+                    x.value.args[0].value.id == "self":
+                tgt, src = x.targets[0].attr, x.value.args[0].attr
+                if not tgt.startswith("_") and src.endswith("_ref"):
+                    derived[tgt] = src
+    n = 0
+
+    def attr_of(test) -> Optional[str]:
+        e = test
+        if isinstance(e, nodes.Not):
+            e = e.node
+        if isinstance(e, nodes.Test):
+            e = e.node
+        if isinstance(e, nodes.Compare):
+            e = e.expr
+        return e.attr if isinstance(e, nodes.Getattr) else None
+    for t in tm.templates.values():
+        if t.ast is None:
+            continue
+        for i in t.ast.find_all(nodes.If):
+            if not i.elif_:
+                continue
+            attrs = [attr_of(x.test) for x in [i] + list(i.elif_)]
+            for a_i, a in enumerate(attrs):
+                if a in derived and derived[a] in attrs:
+                    n += 1
+                    where = f"odxtools/templates/{t.rel}:{i.lineno}"
+                    if attrs.index(derived[a]) < a_i:
+                        run.ok(R, t.rel, f"`{derived[a]}` is tested before `{a}` (which is filled "
+                               "in from it)", where)
+                    else:
+                        run.violation(R, t.rel, f"resolved-before-ref-{a}",
+                                      f"the chain tests `{a}` before `{derived[a]}`, but `{a}` "
+                                      "is filled in from the reference when the database is "
+                                      "resolved: referenced objects are written as inline "
+                                      "copies (duplicate IDs) and the reference is lost", where)
+    if not derived:
+        raise AnalysisError("no field that is filled in from its reference found")
+
+
 def _elif_chains(tm: TemplateModel, pt, run: Run) -> None:
     """`{% if o.a %}…{% elif o.b %}…` writes b only when a is absent: legitimate for the
     alternatives of a choice (X-REF / X-SNREF, the table above), a dropped attribute for two
@@ -903,6 +960,34 @@ def _lossless_numbers(prog: Program, tm: TemplateModel, run: Run) -> None:
                 src = open(pth).read() if os.path.exists(pth) else ""
             for m in re.finditer(r"\b" + re.escape(gname) + r"\s*\(", src):
                 used.append((tname, src.count("\n", 0, m.start()) + 1, gname, lossy[fn]))
+    # ... and no template formats a value itself: `"%g"|format(v)`, `v|round`, `'%.3f' % v`
+    import os
+    tdir = os.path.join(prog.repo, "odxtools", "templates")
+    for root_, _d, files_ in os.walk(tdir):
+        for fn_ in sorted(files_):
+            if not fn_.endswith(".jinja2"):
+                continue
+            src = open(os.path.join(root_, fn_)).read()
+            rel_ = os.path.relpath(os.path.join(root_, fn_), tdir)
+            for m in re.finditer(r"""["'][^"'\n]*%[-+ 0#]*\d*(?:\.\d+)?[eEfFgG][^"'\n]*["']\s*(?:\|\s*format\b|%)|\|\s*round\b""", src):
+                used.append((rel_, src.count("\n", 0, m.start()) + 1, "format",
+                             m.group(0)[:30]))
+    # an enum member is written by its VALUE (the XML spelling, e.g. DYN-DEF-MESSAGE), never by
+    # its python NAME
+    for g in prog.iter_functions():
+        if g.module is not wp:
+            continue
+        for y in walk_no_nested(g.node):
+            if isinstance(y, ast.Attribute) and y.attr == "name" and isinstance(
+                    y.value, ast.Name) and any(
+                        isinstance(c, ast.Call) and call_name(c) == "isinstance" and len(
+                            c.args) == 2 and ast.unparse(c.args[0]) == y.value.id and
+                        "Enum" in ast.unparse(c.args[1]) for c in walk_no_nested(g.node)):
+                run.violation(R, f"writepdxfile.{g.name}", "enum-written-by-name",
+                              f"`{ast.unparse(y)}`: an enumeration member is converted to text "
+                              "by its python name; the ODX spelling is its value (names cannot "
+                              "contain `-`: DYN-DEF-MESSAGE would be written DYN_DEF_MESSAGE "
+                              "and fails to load)", f"{wp.rel}:{y.lineno}", ast.unparse(y))
     if used:
         for tname, ln, gname, spec in used[:5]:
             run.violation(R, f"templates/{tname}", f"lossy-number-format-{gname}",
